@@ -4,6 +4,7 @@
 
 use h_common::{tool_error, Args};
 
+mod client;
 mod common;
 mod decode;
 mod framing;
@@ -18,6 +19,8 @@ fn main() {
         ("replay", "hxserver") => server::replay(&args),
         ("replay", "hxdecode") => decode::replay(&args),
         ("replay", "hxframing") => framing::replay(&args),
+        ("replay", "hxclient") => client::replay(&args),
+        ("record", "hxclient") => client::record(&args),
         _ => tool_error(&format!("unknown mode/model {mode}/{model}")),
     }
 }
